@@ -79,6 +79,16 @@ pub fn generate(g: &mut Gen, thorough: bool) {
             };
             pts.push(near(0.0));
             pts.push(near(1e-3));
+            // far from the centre, beyond 90 degrees of longitude from lon_0 (the quadrant of the inverse), still
+            // within 150 degrees of arc
+            for (dlon, lat) in [(100.0, 20.0), (-100.0, 20.0), (135.0, 0.0), (-120.0, 10.0), (95.0, 40.0), (-91.0, -5.0), (179.0, 50.0)] {
+                let lat: f64 = if lat_0 < 0.0 { -lat } else { lat };
+                let (c, p) = ((lat_0 as f64).to_radians(), lat.to_radians());
+                let cosd = c.sin() * p.sin() + c.cos() * p.cos() * (dlon as f64).to_radians().cos();
+                if cosd.acos().to_degrees() < 145.0 {
+                    pts.push([(10.0 + dlon as f64).to_radians(), p, 0.0, 0.0]);
+                }
+            }
             case(g, "default", &def, "F", "geo", 5e-6, &pts, "laea-aspects", true);
             // millimetres to tens of metres from the centre (a case of its own: for the polar aspects see
             // the known finding laea-polar-aspects-next-to-the-pole)
